@@ -499,6 +499,16 @@ func (e *Env) evalCall(x *ast.CallExpr) Value {
 	case "dataof":
 		need(1)
 		return S(e.S.X.dataOfTerm(e.term(args[0])))
+	case "boxed":
+		// boxed("T", v): the interface value that holds v with dynamic type T
+		// (what a conversion of v to an interface type produces)
+		need(2)
+		lit, ok := args[0].(*ast.BasicLit)
+		if !ok {
+			evalErr("boxed wants a type name string literal")
+		}
+		name, _ := strconv.Unquote(lit.Value)
+		return S(App("box", SInt, IntLit(e.S.X.typeIDByName(name)), e.term(args[1])))
 	case "ptr":
 		// ptr(TypeName, term): view an Int as pointer to named struct
 		need(2)
